@@ -221,12 +221,17 @@ def _run(pr: PropertyRun, mod) -> int:
     for r in main:
         if r.status == "sat" and r.vc.name in _ac.OPEN:
             r.status = "unknown: code shape not recognized by the syntactic rule (" + (r.vc.note or "")[:160] + ")"
+    # Shape obligations (pyvc/astcheck.py): a mismatch says the code no longer has the shape the syntactic rule recognizes. That is a violation
+    # only if the bounded stand-in (run with its larger on-doubt budget) produces a failing input; otherwise it is reported as undecided.
+    shape_refuted = [r for r in main if r.status == "sat" and _ac.is_shape(r.vc, getattr(mod, "DEFINITE", ()))]
+    for r in shape_refuted:
+        r.status = "shape"
     refuted = [r for r in main if r.status == "sat"]
-    unknown = [r for r in main if r.status not in ("sat", "unsat")]
-    if pr.canaries_empty and not refuted and not unknown and not pr.undecided:
+    unknown = [r for r in main if r.status not in ("sat", "unsat", "shape")]
+    if pr.canaries_empty and not refuted and not unknown and not pr.undecided and not shape_refuted:
         pr.engine_faults.append(f"canaries generated no obligation: {pr.canaries_empty}")
     if pr.canaries_verified:
-        if not refuted and not unknown and not pr.undecided:
+        if not refuted and not unknown and not pr.undecided and not shape_refuted:
             # every real obligation discharged AND a deliberately false clause verified: the pipeline is vacuous or unsound -> engine fault
             pr.engine_faults.append(f"canaries verified instead of refuted: {pr.canaries_verified}")
         else:
@@ -253,7 +258,7 @@ def _run(pr: PropertyRun, mod) -> int:
     if e2e_cfg is not None:
         from .replay import run_e2e
         n = e2e_cfg["thorough" if thorough else "quick"]
-        if (refuted or pr.undecided) and not thorough:
+        if (refuted or pr.undecided or shape_refuted) and not thorough:
             n = max(n, e2e_cfg.get("on_doubt", n))        # tie-breaker / witness search gets a larger budget
         res = run_e2e(pid, n, pr.seed, pr.repo, cli=bool(e2e_cfg.get("cli")))
         if res.get("error"):
@@ -356,6 +361,26 @@ def _run(pr: PropertyRun, mod) -> int:
             und = [u["obligation"] for u in pr.undecided if not u["obligation"].endswith("/*")] or [u["obligation"] for u in pr.undecided]
             name = (und[0] + " [undecided by the solver; failing history found by the bounded native stand-in]") if und else ("bounded:cli_generated_inputs" if kind == "cli" else "bounded:e2e_small_histories")
             violations.append({"obligation": name, "replay": path, "reproduced": True})
+    if shape_refuted:
+        names = sorted({r.vc.name for r in shape_refuted})
+        witness = next((v for v in violations if v.get("reproduced") and str(v.get("replay", "")).endswith("e2e_witness.json")), None)
+        if witness is not None and e2e_new:
+            # a failing input exists: the shape obligations that broke are reported with it
+            if witness["obligation"].startswith("bounded:"):
+                violations.remove(witness)
+            for nme in names:
+                violations.append({"obligation": nme, "replay": witness["replay"], "reproduced": True})
+        elif e2e_cfg is None:
+            for nme in names:      # no bounded stand-in to consult: the newly failing obligation is all there is
+                rs = [r for r in shape_refuted if r.vc.name == nme]
+                for r in rs:
+                    r.status = "sat"
+                violations.append(report_violation(pr, mod, nme, rs))
+        else:
+            for nme in names:
+                note = next((r.vc.note for r in shape_refuted if r.vc.name == nme), "")
+                pr.undecided.append({"obligation": nme, "reason": "the code no longer has the shape this syntactic obligation recognizes; the bounded stand-in (on-doubt budget) found no failing input"
+                                     + (f" [{note[:160]}]" if note else ""), "loc": next((r.vc.loc for r in shape_refuted if r.vc.name == nme), "")})
     for b in bounded_fail:
         finding = match_finding(known, pid, "bounded:" + b["name"])
         if finding is not None:
